@@ -3,6 +3,7 @@ package main
 import (
 	"encoding/json"
 	"fmt"
+	"runtime"
 
 	"google.golang.org/protobuf/proto"
 
@@ -43,6 +44,20 @@ func replay(f lib.Flags) int {
 		} else {
 			monitorRoute(m, e, c, o)
 		}
+		fmt.Printf("replay %+v\n -> code: %s\n", c, o.answer)
+	case "wrapchild":
+		var c wrapCase
+		if err := json.Unmarshal(raw, &c); err != nil {
+			lib.Fatal(err)
+		}
+		e, ok := findEntry(c.Pkg, c.Router)
+		if !ok {
+			fmt.Printf("replay: router %s.%s no longer exists\n", c.Pkg, c.Router)
+			return 2
+		}
+		old := runtime.GOMAXPROCS(1)
+		o := checkWrapCase(m, e, c)
+		runtime.GOMAXPROCS(old)
 		fmt.Printf("replay %+v\n -> code: %s\n", c, o.answer)
 	case "e2e":
 		var c e2eCase
